@@ -23,7 +23,11 @@ var (
 )
 
 func TakeRuntimeContext() *RuntimeContext {
-	return runtimeContextPool.Get().(*RuntimeContext)
+	ctx := runtimeContextPool.Get().(*RuntimeContext)
+	// a pooled context must not carry options of the previous call
+	// (context.Context, Path) into the next one.
+	*ctx.Option = Option{}
+	return ctx
 }
 
 func ReleaseRuntimeContext(ctx *RuntimeContext) {
